@@ -263,6 +263,15 @@ def check_day(ctx, day, walk, rng, heavy, mq_all):
             st_, g_ = ctx.call(dt_bump, tv_, tenor_)
             if st_ != 'ok' or g_ != ref_:
                 ctx.fail('start_flavours', 'dt_bump(%s as %s, %r) = %s %r but from the datetime it is %s' % (t, fl_, tenor_, st_, g_, ref_), case=dict(term, tenor=str(tenor_), flavour=fl_))
+    # monotone in t also between an intraday start and the following midnight
+    for n_ in (0, 1, -1, 3):
+        a_, b_ = t + datetime.timedelta(hours=23), t + DAY
+        mon['b_monotone_in_t'] += 1
+        ra_, rb_ = dt_bump(a_, BSTR[n_]), dt_bump(b_, BSTR[n_])
+        if ra_ > rb_:
+            # known finding: a weekend start keeps its time of day when it is rolled to Monday, so Sunday 23:00 lands after Monday 00:00
+            mech_ = 'nb-not-monotone-between-an-intraday-weekend-start-and-the-following-midnight' if a_.weekday() > 4 else None
+            ctx.fail('b_monotone_in_t', "dt_bump(%s, '%db') = %s is later than dt_bump(%s, '%db') = %s" % (a_, n_, ra_, b_, n_, rb_), mech=mech_, case=dict(term, n=n_, unit='b', hour=23))
     # numpy's timedelta adds exactly that much time, like datetime's
     for amount_, unit_ in ((36, 'h'), (-90, 'm'), (45, 's'), (3, 'D')):
         mon['fixed_units'] += 1
